@@ -292,6 +292,29 @@ K1FWD = 'core::algorithms::flips::apply_bistellar_flip_k1'
 INSVERT = T + 'insert_vertex_with_mapping'
 
 
+_INC_MEMO = {}
+
+
+def _writes_incident(prog, name, depth):
+    """A crate function that stores to a `.incident_cell` place itself, or calls one that does (a setter helper)."""
+    key = (id(prog), name)
+    if key in _INC_MEMO:
+        return _INC_MEMO[key]
+    _INC_MEMO[key] = False
+    b = prog.bodies.get(name)
+    if b is None:
+        return False
+    r = False
+    for blk in b.blocks:
+        for s_ in blk.stmts:
+            if s_.kind == 'A' and not s_.place.is_local() and s_.place.proj and str(s_.place.proj[-1]).endswith('incident_cell'):
+                r = True
+    if not r and depth > 0:
+        r = any(_writes_incident(prog, t.resolved or t.callee or '', depth - 1) for _, t in b.calls())
+    _INC_MEMO[key] = r
+    return r
+
+
 def _newinc(ctx, cfg, prog, mod):
     """NEWINC (after fix F26): the k=1 cell split stores a caller-supplied vertex.  (a) The `incident_cell` of the value
     handed to `insert_vertex_with_mapping` is overwritten first (the caller's copy may point into another triangulation);
@@ -352,7 +375,8 @@ def _newinc(ctx, cfg, prog, mod):
                     and '*' in s_.place.proj:
                 stores.append(s_.line)
         t = blk.term
-        if t.k == 'call' and (t.resolved or t.callee or '').endswith('assign_incident_cells'):
+        if t.k == 'call' and ((t.resolved or t.callee or '').endswith('assign_incident_cells') or
+                              _writes_incident(prog, t.resolved or t.callee or '', 2)):
             stores.append(t.line)
     ctx.ob('NEWINC', K1FWD + '|inserted-pointer-set', cfg, bool(stores),
            'on the success side of the kernel result the stored vertex receives an incident cell (line %s)' % stores[:2] if stores else
